@@ -133,7 +133,7 @@ func padSyms(alpha []synth.Sym) []synth.Sym {
 
 // choose builds one valid stream from engine choices. ok=false means the combination is not expressible.
 func (g *streamGen) choose(x *mc.Exec, k int) (stream []byte, name string, ok bool) {
-	fam := x.Choose(9, "family")
+	fam := x.Choose(10, "family")
 	switch fam {
 	case 0, 1: // A: dynamic block; B: fixed block
 		var blk synth.Block
@@ -293,6 +293,53 @@ func (g *streamGen) choose(x *mc.Exec, k int) (stream []byte, name string, ok bo
 		}
 		blk.Syms = syms
 		return synth.Build(blk), fmt.Sprintf("smalldist(len=%d,dist=%d) code=%d", L, d, dyn), true
+	case 9: // J: packed table entries: a code so short that pairs and triples of symbols (literal+literal,
+		// literal+length, literal+literal+length, ...) share one lookup entry; every sequence up to the depth over
+		// {a, b, c, match with the smallest / the largest extra bits of one length symbol} - for the first and the last
+		// length symbol of every extra-bits class, incl. length 258 written as symbol 284 + extra 31
+		lenSyms := []int{257, 258, 264, 265, 268, 269, 272, 273, 276, 277, 280, 281, 284, 285}
+		S := lenSyms[x.Choose(len(lenSyms), "len-sym")]
+		shape := x.Choose(2, "code-shape")
+		lens := []uint8{2, 2, 2, 3, 3}
+		if shape == 1 {
+			lens = []uint8{1, 3, 3, 3, 3}
+		}
+		blk := synth.Block{Type: 2, LitLens: trimLitLens(synth.Assign(286, []int{'a', 'b', S, 256, 'c'}, lens)), DistLens: []uint8{1, 1}, Enc: synth.EncRepeat}
+		if NewCodeLeft(blk.LitLens) != 0 {
+			panic(mc.HarnessError{Msg: "packed: literal code not complete"})
+		}
+		lo, hi := synth.LenRange(S)
+		alpha := []synth.Sym{{Kind: synth.SymLit, Lit: 'a'}, {Kind: synth.SymLit, Lit: 'b'}, {Kind: synth.SymLit, Lit: 'c'},
+			{Kind: synth.SymMatch, Len: lo, Dist: 1}, {Kind: synth.SymMatch, Len: hi, Dist: 2}}
+		if S == 284 {
+			alpha = append(alpha, synth.Sym{Kind: synth.SymMatch, Len: 258, Dist: 1, Alt258: true})
+		}
+		depth := k + 1
+		if g.cfg.Thorough {
+			depth = k + 2
+		}
+		var syms []synth.Sym
+		for i := 0; i < depth; i++ {
+			c := x.Choose(len(alpha)+1, "sym")
+			if c == 0 {
+				break
+			}
+			syms = append(syms, alpha[c-1])
+		}
+		tail := x.Choose(2, "tail")
+		if tail == 1 {
+			for i := 0; i < 40; i++ {
+				syms = append(syms, synth.Sym{Kind: synth.SymLit, Lit: 'a' + i%3})
+			}
+		}
+		blk.Syms = syms
+		final := x.Choose(2, "final")
+		blk.Final = final == 1
+		blks := []synth.Block{{Type: 0, Stored: []byte("hi")}, blk}
+		if !blk.Final {
+			blks = append(blks, synth.Block{Final: true, Type: 1})
+		}
+		return synth.Build(blks...), fmt.Sprintf("packed(sym%d,shape%d,final=%v) tail%d [%s]", S, shape, blk.Final, tail, symsString(syms)), true
 	case 7: // H: symbols straddling the points where the 64 KiB internal output window fills (65536, then every 32768)
 		ws, name := g.windowFill(x)
 		return ws, name, true
